@@ -113,10 +113,11 @@ func main() {
 	verdicts := discharge(results, *workers, tmo, seed, *keep)
 	// retry undecided obligations that the lock records as discharged, with thorough limits
 	lockSet := readLock(*lock)
+	lockFam := lockFamilies(lockSet)
 	var retry []*FuncResult
 	retryIdx := map[*Obl]int{}
 	for i, v := range verdicts {
-		if v.Status == "undecided" && lockSet[lockKey(*tags, v.Obl.Name)] == "q" && tmo < 60000 {
+		if cls := lockClass(lockSet, lockFam, *tags, v.Obl.Name); v.Status == "undecided" && (cls == "q" || cls == "c") && tmo < 60000 {
 			for _, fr := range results {
 				if fr.Name == v.Func {
 					retry = append(retry, &FuncResult{Name: fr.Name, Spec: fr.Spec, VC: fr.VC, Obls: []*Obl{v.Obl}})
